@@ -1084,6 +1084,50 @@ def gen_cropf64(repo):
     out += 'def resizeEarlyOut : String := "%s"\n\n' % ' '.join(m.group(1).split())
     return out
 
+def gen_color(repo):
+    out = ''
+    f = 'src/color/mappers.rs'
+    src = read(repo, f)
+    rows = []
+    for fn in ('gamma_into_linear', 'linear_into_gamma', 'srgb_to_linear', 'linear_to_srgb', 'create_gamma_22_mapper', 'create_srgb_mapper'):
+        m = re.search(r'fn %s\([^)]*\) -> \w+ \{(.*?)\n\}' % fn, src, re.S)
+        if not m:
+            raise TranslationError("fn %s not found in %s" % (fn, f))
+        rows.append((fn, ' '.join(m.group(1).split())))
+    f2 = 'src/color/mod.rs'
+    src = read(repo, f2)
+    m = re.search(r'table\.iter_mut\(\)\.enumerate\(\)\.for_each\(\|\(input, output\)\| \{(.*?)\}\);', src, re.S)
+    if not m:
+        raise TranslationError("MappingTable::new body not found")
+    rows.append(('table_entry', ' '.join(m.group(1).split())))
+    conds = set(re.findall(r'if (\(i \+ 1\) % gap_step != 0) \{', src))
+    if len(conds) != 1 or len(re.findall(r'gap_step', src)) < 4:
+        raise TranslationError("gap condition of map_with_gaps changed")
+    rows.append(('gap_condition', conds.pop()))
+    m = re.search(r'pub fn map_image_typed<S, D>.*?match S::CountOfComponents::count\(\) \{(.*?)\n            \}', src, re.S)
+    if not m:
+        raise TranslationError("map_image_typed dispatch not found")
+    rows.append(('gap_dispatch', ' '.join(re.sub(r'//[^\n]*', '', m.group(1)).split())))
+    m = re.search(r'pub fn map_image_inplace_typed<S>.*?match S::CountOfComponents::count\(\) \{(.*?)\n            \}', src, re.S)
+    if not m:
+        raise TranslationError("map_image_inplace_typed dispatch not found")
+    rows.append(('gap_dispatch_inplace', ' '.join(re.sub(r'//[^\n]*', '', m.group(1)).split())))
+    if not re.search(r'if src_image\.width\(\) != dst_image\.width\(\) \|\| src_image\.height\(\) != dst_image\.height\(\) \{\s*return Err\(MappingError::DifferentDimensions\);', src):
+        raise TranslationError("PixelComponentMapper::map lost its dimension check")
+    out += '/-- %s, %s: source text of the transfer functions, of the table construction and of the alpha-gap logic -/\n' % (f, f2)
+    out += 'def colorSources : List (String × String) := [\n%s]\n\n' % ',\n'.join(
+        '  ("%s", "%s")' % (a, b.replace('"', '\\"')) for a, b in rows)
+    m = re.search(r'match_img!\(\s*tables,\s*(\(PT::U8, U8, PT::U16, U16\),.*?)\)\s*\}', src, re.S)
+    if not m:
+        raise TranslationError("PixelComponentMapper::map dispatch not found")
+    pairs = re.findall(r'\(PT::(\w+), (\w+), PT::(\w+), (\w+)\)', m.group(1))
+    for a, b, c, d in pairs:
+        if a != b or c != d:
+            raise TranslationError("mapper dispatch pairs %s/%s" % (a, b))
+    out += '/-- %s: (8-bit type, 16-bit type) rows of the mapper dispatch; all four depth combinations of a row are accepted -/\n' % f2
+    out += 'def mapperRows : List (String × String) := [%s]\n\n' % ', '.join('("%s", "%s")' % (a, c) for a, _, c, _ in pairs)
+    return out
+
 def gen_sizes(repo):
     """Buffer-size expressions of the image constructors."""
     out = ''
@@ -1122,6 +1166,7 @@ GENERATORS = [
     ('Sizes', gen_sizes),
     ('Convert', gen_convert),
     ('CropF64', gen_cropf64),
+    ('Color', gen_color),
 ]
 
 def write_if_changed(path, content):
